@@ -3,7 +3,10 @@ import ShpanVerif.Model.Buffered
 /-
 Driver handler for the asynchronous clause of C05 (case lines whose first token is `A`; harness/run/c05_async.go).
   case := "A buffered n=<size> len=<elements> ..." | "A concmap c=<concurrency> len=<elements> ..."
-  obs  := "res=<class> runahead=<max> handed=<k> len=<elements> bound=<b> leak=<k>"
+  obs  := "res=<class> runahead=<max> handed=<k> len=<elements> bound=<b> leak=<k> pulled=<total>"
+  optional `limit=<k>`: Limit(k) downstream of the stage (early stop); `pulled` counts every element the source handed out
+  until nothing of the materialisation is left, and must stay ≤ handed + bound (same theorems: they hold in every
+  reachable state, the final one included)
 spec predicate (independent of the model): the terminal returned nil, every element was handed to the consumer, no
 goroutine was left, and the observed maximal run-ahead is ≤ the bound of the property: `n` for Buffered(n), `3c+1` for the
 concurrent map (`C05_runahead_buffered`, `C05_runahead_concmap`).
@@ -15,26 +18,40 @@ namespace ShpanVerif.Drive.C05Async
 open ShpanVerif.Util ShpanVerif.Model ShpanVerif.Model.Conc ShpanVerif.Drive.Conc
 
 /-- Buffered: run to quiescence, record the run-ahead while the consumer holds an element, release, repeat. -/
-def bufLoop (cfg : Buffered.Cfg) : Nat → Buffered.St → Nat → Buffered.St × Nat
+def bufLoop (cfg : Buffered.Cfg) (stopAt : Nat) : Nat → Buffered.St → Nat → Buffered.St × Nat
   | 0, s, m => (s, m)
   | fuel + 1, s, m =>
-    let s := saturate (Buffered.step cfg) (fun st => Buffered.internalLabels st ++ [.fEmitVal, .fEmitEof]) 100000 s
+    let sat := saturate (Buffered.step cfg) (fun st => Buffered.internalLabels st ++ [.fEmitVal, .fEmitEof]) 100000
+    let s := sat s
     if s.cons == .got then
       let m := max m (s.cursor - s.delivered.length)
+      -- `Limit(stopAt)` downstream: the element that reaches the limit ends the stream (cStop), then everything
+      -- still running runs to its end
+      if stopAt ≠ 0 && s.delivered.length == stopAt then
+        match Buffered.step cfg s .cStop with
+        | some s' => (sat s', m)
+        | none => (s, m)
+      else
       match Buffered.step cfg s .cNext with
-      | some s' => bufLoop cfg fuel s' m
+      | some s' => bufLoop cfg stopAt fuel s' m
       | none => (s, m)
     else (s, m)
 
-def cmLoop (cfg : ConcMap.Cfg) : Nat → ConcMap.St → Nat → ConcMap.St × Nat
+def cmLoop (cfg : ConcMap.Cfg) (stopAt : Nat) : Nat → ConcMap.St → Nat → ConcMap.St × Nat
   | 0, s, m => (s, m)
   | fuel + 1, s, m =>
-    let s := saturate (ConcMap.step cfg)
-      (fun st => ConcMap.internalLabels st ++ [.pEmitVal, .pEmitEof] ++ st.wMap.map .wMapOk) 100000 s
+    let sat := saturate (ConcMap.step cfg)
+      (fun st => ConcMap.internalLabels st ++ [.pEmitVal, .pEmitEof] ++ st.wMap.map .wMapOk) 100000
+    let s := sat s
     if s.cons == .got then
       let m := max m (s.cursor - s.delivered.length)
+      if stopAt ≠ 0 && s.delivered.length == stopAt then
+        match ConcMap.step cfg s .cStop with
+        | some s' => (sat s', m)
+        | none => (s, m)
+      else
       match ConcMap.step cfg s .cNext with
-      | some s' => cmLoop cfg fuel s' m
+      | some s' => cmLoop cfg stopAt fuel s' m
       | none => (s, m)
     else (s, m)
 
@@ -46,19 +63,25 @@ def handle (cs obs : String) : String × Bool × String :=
     let o := parseKV (words obs)
     let ra := o.nat "runahead" 1000000
     let bound := if kind == "buffered" then kv.nat "n" else 3 * kv.nat "c" + 1
-    let specOk := o.str "res" == "ok" && o.nat "handed" 1000000 == ln && o.nat "leak" 1 == 0 && ra ≤ bound
+    let lim := kv.nat "limit"
+    let want := if lim == 0 then ln else min lim ln
+    let handed := o.nat "handed" 1000000
+    let pulled := o.nat "pulled" 1000000
+    let specOk := o.str "res" == "ok" && handed == want && o.nat "leak" 1 == 0 && ra ≤ bound && pulled ≤ handed + bound
     let why := if specOk then "" else
-      if ra > bound then s!"ran ahead of the consumer by {ra} > {bound}" else "run did not complete cleanly"
+      if ra > bound then s!"ran ahead of the consumer by {ra} > {bound}"
+      else if pulled > handed + bound then s!"pulled {pulled} elements in total for {handed} delivered: more than {bound} ahead"
+      else "run did not complete cleanly"
     if kind == "buffered" then
       let cfg : Buffered.Cfg := { n := ln, size := kv.nat "n" }
-      let (s, m) := bufLoop cfg (ln + 2) (Buffered.init cfg) 0
+      let (s, m) := bufLoop cfg lim (ln + 2) (Buffered.init cfg) 0
       let res := match s.res with | some .ok => "ok" | some .errCtx => "ctx" | some .errOther => "other" | none => "none"
-      (s!"res={res} runahead={m} handed={s.delivered.length} len={ln} bound={cfg.size} leak={if Buffered.final s then 0 else 1}",
+      (s!"res={res} runahead={m} handed={s.delivered.length} len={ln} bound={cfg.size} leak={if Buffered.final s then 0 else 1} pulled={s.cursor}",
         specOk, why)
     else if kind == "concmap" then
       let cfg : ConcMap.Cfg := { n := ln, c := kv.nat "c" }
-      let (s, m) := cmLoop cfg (ln + 2) (ConcMap.init cfg) 0
-      (s!"res={resStr s.res} runahead={m} handed={s.delivered.length} len={ln} bound={3 * cfg.c + 1} leak={if ConcMap.final cfg s then 0 else 1}",
+      let (s, m) := cmLoop cfg lim (ln + 2) (ConcMap.init cfg) 0
+      (s!"res={resStr s.res} runahead={m} handed={s.delivered.length} len={ln} bound={3 * cfg.c + 1} leak={if ConcMap.final cfg s then 0 else 1} pulled={s.cursor}",
         specOk, why)
     else ("bad-case", false, "unknown kind")
   | _ => ("bad-case", false, "unparsable case")
